@@ -2,7 +2,10 @@ package main
 
 import (
 	"bufio"
+	"encoding/hex"
 	"fmt"
+	"io"
+	"log/slog"
 	"math/rand"
 	"os"
 	"os/exec"
@@ -626,9 +629,26 @@ func rowCounts(x *hx.Exec) (map[string]int, error) {
 	return out, nil
 }
 
+// deadTime spreads the expiry of the i-th expired key over the past: an hour ago, a millisecond
+// ago, the epoch itself and times before it.
+func deadTime(i int) time.Time {
+	switch i % 7 {
+	case 1:
+		return time.Now().Add(-time.Millisecond)
+	case 2:
+		return time.UnixMilli(0)
+	case 3:
+		return time.UnixMilli(-5000)
+	case 4:
+		return time.UnixMilli(1)
+	default:
+		return time.Now().Add(-time.Hour)
+	}
+}
+
 func populate(x *hx.Exec, n int, expired func(i int) bool) (live, dead int) {
-	past := time.Now().Add(-time.Hour)
 	for i := 0; i < n; i++ {
+		past := deadTime(i)
 		k := fmt.Sprintf("p%d", i)
 		switch i % 5 {
 		case 0:
@@ -656,11 +676,143 @@ func populate(x *hx.Exec, n int, expired func(i int) bool) (live, dead int) {
 	return
 }
 
+// bgRun is one observation of the real background goroutine: a file database populated with
+// expired and live keys, client load running, polled until the expired keys are gone.
+type bgRun struct {
+	x          *hx.Exec
+	name       string
+	live, dead int
+	opened     time.Time
+	stop       chan struct{}
+	wg         sync.WaitGroup
+	clientErrs atomic.Int64
+	wrong      atomic.Int64
+	loadN      atomic.Int64
+}
+
+func startBg(dir, name string, opts *redka.Options, total int, expired func(i int) bool) (*bgRun, error) {
+	x, err := hx.OpenPathOpts(filepath.Join(dir, name+".db"), opts)
+	if err != nil {
+		return nil, err
+	}
+	b := &bgRun{x: x, name: name, opened: time.Now(), stop: make(chan struct{})}
+	b.live, b.dead = populate(x, total, expired)
+	b.wg.Add(1)
+	go func() {
+		defer b.wg.Done()
+		for {
+			select {
+			case <-b.stop:
+				return
+			default:
+			}
+			n := b.loadN.Add(1)
+			if v, err := x.DB.Str().Incr("load", 1); err != nil {
+				b.clientErrs.Add(1)
+			} else if int64(v) != n {
+				b.wrong.Add(1)
+			}
+			if v, err := x.DB.Str().Get("load"); err != nil {
+				b.clientErrs.Add(1)
+			} else if i, _ := v.Int(); int64(i) != n {
+				b.wrong.Add(1)
+			}
+			time.Sleep(2 * time.Millisecond)
+		}
+	}()
+	return b, nil
+}
+
+// finish waits until the expired keys have been reclaimed (at most `limit` after the handle was opened).
+func (b *bgRun) finish(limit time.Duration) {
+	reclaimedAt := time.Duration(0)
+	var last map[string]int
+	for time.Since(b.opened) < limit {
+		rc, err := rowCounts(b.x)
+		if err == nil {
+			last = rc
+			if rc["rkey"] <= b.live+1 {
+				reclaimedAt = time.Since(b.opened)
+				break
+			}
+		}
+		time.Sleep(500 * time.Millisecond)
+	}
+	close(b.stop)
+	b.wg.Wait()
+	sum.Cases++
+	if reclaimedAt == 0 {
+		fail("c20-not-reclaimed", fmt.Sprintf("%s: of %d expired keys %d were still stored %d s after opening the handle (documented: reclaimed within one minute); %d live keys",
+			b.name, b.dead, last["rkey"]-b.live-1, int(limit.Seconds()), b.live), nil)
+	} else {
+		count(fmt.Sprintf("reclaimed_after_%ds", int(reclaimedAt.Seconds())/10*10))
+	}
+	if b.clientErrs.Load() > 0 {
+		fail("c20-disturbed", fmt.Sprintf("%s: %d client operations failed while the reclamation ran", b.name, b.clientErrs.Load()), nil)
+	}
+	if b.wrong.Load() > 0 {
+		fail("c20-disturbed", fmt.Sprintf("%s: %d client operations returned a wrong result while the reclamation ran", b.name, b.wrong.Load()), nil)
+	}
+	rc, _ := rowCounts(b.x)
+	if reclaimedAt != 0 && rc["rkey"] != b.live+1 {
+		fail("c20-live-touched", fmt.Sprintf("%s: %d key rows after the reclamation, %d keys are live", b.name, rc["rkey"], b.live+1), nil)
+	}
+	audit, _ := hx.AuditAndContinue(b.x, &hx.History{ID: 1})
+	if audit != "ok" {
+		fail("c20-inconsistent", b.name+": after the background reclamation the structural audit fails (elements of removed keys left behind?): "+audit, nil)
+	}
+	// closing stops the reclamation cleanly
+	b.x.Raw.Close()
+	if err := b.x.DB.Close(); err != nil {
+		fail("c20-close", b.name+": Close after the reclamation: "+err.Error(), nil)
+	}
+}
+
+// withoutKeys drops the entries of the named keys (hex names) from a content text.
+func withoutKeys(text string, names map[string]bool) string {
+	var b strings.Builder
+	for _, ent := range strings.Fields(text) {
+		name := strings.ToLower(strings.SplitN(ent, ":", 2)[0])
+		if !names[name] {
+			b.WriteString(ent + " ")
+		}
+	}
+	return b.String()
+}
+
 func runC20(seed int64, n int, long bool) {
 	r := rand.New(rand.NewSource(seed))
-	// quick part: the reclamation step itself (what the background goroutine calls) on mixed populations
+	// the real background goroutine (60 s period) runs on two file handles while the rest of the
+	// check goes on: default options, and options that only set a logger
+	dir, err := os.MkdirTemp("", "sysrun-c20-")
+	if err != nil {
+		fail("harness", err.Error(), nil)
+		return
+	}
+	defer os.RemoveAll(dir)
+	nBig := 3000
+	if long {
+		nBig = 10000
+	}
+	quiet := slog.New(slog.NewTextHandler(io.Discard, nil))
+	bgA, err := startBg(dir, "default-options", nil, nBig, func(i int) bool { return i%6 != 0 })
+	if err != nil {
+		fail("harness", err.Error(), nil)
+		return
+	}
+	bgB, err := startBg(dir, "logger-only-options", &redka.Options{Logger: quiet}, 600, func(i int) bool { return i%2 == 0 })
+	if err != nil {
+		fail("harness", err.Error(), nil)
+		return
+	}
+	// the reclamation step itself (what the background goroutine calls) on mixed populations
 	for round := 0; round < n && len(sum.Failures) == 0; round++ {
-		x, err := hx.OpenMem(fmt.Sprintf("c20_%d", round))
+		var x *hx.Exec
+		if round%3 == 2 {
+			x, err = hx.OpenPathOpts(fmt.Sprintf("file:/hx_c20o_%d_%d.db?vfs=memdb", time.Now().UnixNano(), round), &redka.Options{Logger: quiet})
+		} else {
+			x, err = hx.OpenMem(fmt.Sprintf("c20_%d", round))
+		}
 		if err != nil {
 			fail("harness", err.Error(), nil)
 			return
@@ -670,7 +822,14 @@ func runC20(seed int64, n int, long bool) {
 			size = 0
 		}
 		p := r.Float64()
-		live, dead := populate(x, size, func(i int) bool { return r.Float64() < p })
+		deadNames := map[string]bool{}
+		live, dead := populate(x, size, func(i int) bool {
+			if r.Float64() < p {
+				deadNames["x"+strings.ToLower(hex.EncodeToString([]byte(fmt.Sprintf("p%d", i))))] = true
+				return true
+			}
+			return false
+		})
 		before, _ := hx.ContentOfDB(x.DB)
 		sum.Cases++
 		distinct(fmt.Sprintf("%d-%d", live, dead))
@@ -679,7 +838,7 @@ func runC20(seed int64, n int, long bool) {
 			fail("c20-error", "DeleteExpired: "+err.Error(), nil)
 		}
 		if cnt != dead {
-			fail("c20-count", fmt.Sprintf("DeleteExpired(0) removed %d keys, %d had expired", cnt, dead), nil)
+			fail("c20-count", fmt.Sprintf("DeleteExpired(0) removed %d keys, %d had expired (expiry times: an hour ago, 1 ms ago, the epoch, before the epoch)", cnt, dead), nil)
 		}
 		rc, _ := rowCounts(x)
 		if rc["rkey"] != live {
@@ -691,80 +850,30 @@ func runC20(seed int64, n int, long bool) {
 		}
 		// live keys untouched: the visible content is the same as before
 		after, _ := hx.ContentOfDB(x.DB)
-		if liveOnly(before.Text, x) != after.Text && dead == 0 && before.Text != after.Text {
-			fail("c20-live-touched", "reclamation changed live keys", nil)
+		if want := withoutKeys(before.Text, deadNames); want != after.Text {
+			fail("c20-live-touched", "reclamation changed live keys\n live keys before: "+want+"\n stored after    : "+after.Text, nil)
 		}
 		count("reclamation_steps")
 		x.Close()
 	}
+	limit := 75 * time.Second
+	bgA.finish(limit)
+	bgB.finish(limit)
 	if !long || len(sum.Failures) > 0 {
 		return
 	}
-	// thorough part: the real background goroutine (60 s period) on a handle and on a server, with client load
-	dir, err := os.MkdirTemp("", "sysrun-c20-")
+	// thorough: a second period on a fresh handle, keys expiring DURING the observation window
+	bgC, err := startBg(dir, "expiring-during-window", nil, 2000, func(i int) bool { return false })
 	if err != nil {
 		fail("harness", err.Error(), nil)
 		return
 	}
-	defer os.RemoveAll(dir)
-	path := filepath.Join(dir, "bg.db")
-	x, err := hx.OpenPath(path)
-	if err != nil {
-		fail("harness", err.Error(), nil)
-		return
+	for i := 0; i < 1500; i++ {
+		k := fmt.Sprintf("w%d", i)
+		_ = bgC.x.DB.Str().SetExpires(k, "v", time.Duration(1+i%40)*time.Second)
 	}
-	live, dead := populate(x, 2000, func(i int) bool { return i%2 == 0 })
-	opened := time.Now()
-	stop := make(chan struct{})
-	var clientErrs atomic.Int64
-	var wg sync.WaitGroup
-	wg.Add(1)
-	go func() {
-		defer wg.Done()
-		i := 0
-		for {
-			select {
-			case <-stop:
-				return
-			default:
-			}
-			i++
-			if _, err := x.DB.Str().Incr("load", 1); err != nil {
-				clientErrs.Add(1)
-			}
-			if _, err := x.DB.Str().Get("load"); err != nil {
-				clientErrs.Add(1)
-			}
-			time.Sleep(2 * time.Millisecond)
-		}
-	}()
-	reclaimedAt := time.Duration(0)
-	for time.Since(opened) < 75*time.Second {
-		rc, err := rowCounts(x)
-		if err == nil && rc["rkey"] <= live+1 {
-			reclaimedAt = time.Since(opened)
-			break
-		}
-		time.Sleep(500 * time.Millisecond)
-	}
-	close(stop)
-	wg.Wait()
-	sum.Cases++
-	if reclaimedAt == 0 {
-		fail("c20-not-reclaimed", fmt.Sprintf("%d expired keys were not reclaimed within 75 s of opening the handle (documented: one minute)", dead), nil)
-	} else {
-		count(fmt.Sprintf("reclaimed_after_%ds", int(reclaimedAt.Seconds())))
-	}
-	if clientErrs.Load() > 0 {
-		fail("c20-disturbed", fmt.Sprintf("%d client operations failed while the reclamation ran", clientErrs.Load()), nil)
-	}
-	audit, _ := hx.AuditAndContinue(x, &hx.History{ID: 1})
-	if audit != "ok" {
-		fail("c20-inconsistent", "after the background reclamation the structural audit fails: "+audit, nil)
-	}
-	x.Close()
+	bgC.dead = 1500
+	// everything has expired 40 s after the population; the tick at 60 s must take all of it
+	bgC.finish(limit)
 }
 
-// liveOnly is a placeholder for the content restricted to live keys (content dumps list stored keys;
-// before reclamation that includes the expired ones).
-func liveOnly(text string, x *hx.Exec) string { return text }
